@@ -15,10 +15,11 @@
   defect is positive) or a cofactor index outside its range reads outside the array; the model
   answers `NotModelled` there.
 
-  `gsoSolveWith refuse`: `refuse = false` is the code as it is (ICGS::error() is never read:
-  finding F6); `refuse = true` models the proposed repair
-  (notes/proposed/C02-gso-bad-regularization.diff): `solve()` throws `BadRegularization`
-  when `icgs.error() != 0`.
+  `gsoSolveWith refuse`: `refuse = true` is the code as it is since f703dbb (`solve()` throws
+  `BadRegularization` when `icgs.error() != 0`, after x and r have been copied and `is_solved`
+  set, as AdjCholDec does; a FRESH object therefore throws on every query); `refuse = false`
+  is the code before that commit (`ICGS::error()` was never read: finding F6), kept for the
+  recorded witness.
 
   Core Lean only.
 -/
@@ -56,14 +57,17 @@ def regInRange (N : Nat) : Reg → Bool
   | .subset l => l.all fun i => 1 ≤ i && i ≤ N
   | _ => true
 
+/-- the ICGS object of a fresh `AdjGSO` after `solve()` on problem `p` -/
+def runOf (p : Problem K) : R2 K :=
+  run (tolerance : K) p.m p.n (entry p.dense) (fun i => p.rhs.getD i 0) (maskOf p.n p.reg)
+
 end Gso
 
 open Gso in
 def gsoSolveWith {K : Type} [Scalar K] (refuse : Bool) : Solver K := fun p =>
   let M := p.m
   let N := p.n
-  let A := p.dense
-  let R := run (tolerance : K) M N (entry A) (fun i => p.rhs.getD i 0) (maskOf N p.reg)
+  let R := runOf p
   if !R.dep.isEmpty && !regInRange N p.reg then .error .NotModelled
   else if refuse && R.err != 0 then .error .BadRegularization
   else
@@ -86,9 +90,9 @@ def gsoSolveWith {K : Type} [Scalar K] (refuse : Bool) : Solver K := fun p =>
 variable {K : Type} [Scalar K]
 
 /-- answers of a fresh `AdjGSO` object on problem `p` (dense A, b, unit covariance) -/
-def gsoSolve : Solver K := gsoSolveWith false
+def gsoSolve : Solver K := gsoSolveWith true
 
-/-- the same with the repair of F6 applied (`solve()` refuses when `icgs.error() != 0`) -/
-def gsoSolveFixed : Solver K := gsoSolveWith true
+/-- the code before f703dbb (finding F6): `icgs.error()` ignored -/
+def gsoSolveBefore : Solver K := gsoSolveWith false
 
 end Gama.Ls
